@@ -207,7 +207,10 @@ structure CallSite where
   ns : List String                -- namespace parts
   base : String                   -- sanitised friendly base name
   inSig : List TSig
-  caps : List (String × CapVal)
+  caps : List (String × CapVal)    -- keyword arguments of THIS call, ground truth
+  paramNames : List String        -- names given in `to_onnx(input_params=…)`
+  injected : List (String × CapVal)  -- input params the callee's signature accepts although the
+                                  -- call site does not pass them (the code threads them in)
   callee : Callee
   nOut : Nat                      -- number of outputs of the call equation
   deriving DecidableEq, Repr
@@ -225,6 +228,17 @@ structure Key where
   capSig : CapSig
   deriving DecidableEq, Repr
 
+/-- How `_lower_and_call` classifies a keyword argument: a static value whose NAME is one of the
+    `input_params` is taken for that run-time input, whatever its value. -/
+def effCap (names : List String) (p : String × CapVal) : String × CapVal :=
+  match p.2 with
+  | .const s d _ => if p.1 ∈ names then (p.1, .callInput s d) else p
+  | _ => p
+
+/-- The captures as the code sees them: classified by name, plus the auto-injected input params. -/
+def effCaps (c : CallSite) : List (String × CapVal) :=
+  c.caps.map (effCap c.paramNames) ++ c.injected
+
 def mapSnd {α β : Type} (f : α → β) (l : List (String × α)) : List (String × β) :=
   l.map (fun p => (p.1, f p.2))
 
@@ -235,9 +249,9 @@ def mkKey (H S : Bytes → Nat) (c : CallSite) : Key :=
     capSig :=
       if c.unique then
         match c.callee with
-        | .inst _ t st => .byState c.target (mapSnd (capKey H) c.caps) t (mapSnd (fpKey S) st)
-        | .func _ m n => .byCallable c.target (mapSnd (capKey H) c.caps) m n
-      else .byId c.callee.id (mapSnd (capKey H) c.caps) }
+        | .inst _ t st => .byState c.target (mapSnd (capKey H) (effCaps c)) t (mapSnd (fpKey S) st)
+        | .func _ m n => .byCallable c.target (mapSnd (capKey H) (effCaps c)) m n
+      else .byId c.callee.id (mapSnd (capKey H) (effCaps c)) }
 
 /-- segment of a function domain: text or a decimal counter -/
 inductive Seg where
@@ -285,7 +299,8 @@ def capsOf : CapSig → List (String × CapKey)
   | .byCallable _ c _ _ => c
 
 /-- number of inputs of the call node / of the function: positional inputs + runtime parameters -/
-def nInOf (c : CallSite) : Nat := c.inSig.length + (c.caps.filter (fun p => isDynVal p.2)).length
+def nInOf (c : CallSite) : Nat :=
+  c.inSig.length + ((effCaps c).filter (fun p => isDynVal p.2)).length
 
 def nInKey (k : Key) : Nat := k.inSig.length + ((capsOf k.capSig).filter (fun p => isDynKey p.2)).length
 
